@@ -53,7 +53,7 @@ BUDGET = {'quick': 420, 'thorough': 2400}
 CASE_TIMEOUT = {'quick': 60, 'thorough': 300}
 
 INV_OK = {
-    'vec': ['I3', 'k', 'D', 'Spd', 'Spd2'],
+    'vec': ['I3', 'k', 'D', 'Spd', 'Spd2', 'Nsym'],
     'mat': ['I', 'k', 'D0', 'D1', 'D2', 'Mv', 'MvI', 'Mn'],
     'stokes': ['R', 'Rs', 'H', 'k', 'Dq', 'Id'],
     'tree': ['I', 'k', 'D'],
